@@ -4,7 +4,7 @@ CONSTANTS
   ThrMode = "fixed"
   EmptyMode = "fixed"
   RstMode = "pinned"
-INVARIANTS NoViolation AckSound QueueBound InitialCredit DoneResolved
+INVARIANTS NoViolation AckSound QueueBound InitialCredit DoneResolved NoOrphanWriter
 CONSTRAINT Track
 POSTCONDITION Accepted
 CHECK_DEADLOCK FALSE
